@@ -44,6 +44,23 @@ def CallRec.eps (c : CallRec) : List EpSnap := parseEps ((kvGet c.snap "eps").ge
 def markLine (cx : Ctx) (text : String) : Option Nat :=
   (cx.sc.netOps.find? fun (_, w) => w == ["mark", text]).map (·.1)
 
+/-- The magic number the session at address `addr` stamps on what it sends to `sid` (the harness
+uses the session id as its address). -/
+def genuineMagic (cx : Ctx) (sid addr : Nat) : Option Nat := Id.run do
+  for c in cx.sc.calls do
+    if c.sid != addr then continue
+    match c.sent.find? (·.1 == sid) with
+    | some (_, m) => return some m.magic
+    | none => pure ()
+  return none
+
+/-- Did this call receive traffic from `addr` that the endpoint accepts as its peer's: a packet
+with another magic number is foreign (C08) and must not count as a sign of life. -/
+def heardFrom (cx : Ctx) (c : CallRec) (addr : Nat) : Bool :=
+  match genuineMagic cx c.sid addr with
+  | some g => c.recv.any fun (a, m) => a == addr && m.magic == g
+  | none => c.recv.any (·.1 == addr)
+
 /-- Largest silence (µs) session `sid` experienced from address `addr` while it was polling:
 gap between consecutive receptions, measured at the polling call after the gap. -/
 def maxSilence (cx : Ctx) (sid addr : Nat) : Nat := Id.run do
@@ -55,7 +72,7 @@ def maxSilence (cx : Ctx) (sid addr : Nat) : Nat := Id.run do
       match last with
       | some t => worst := max worst (c.now - t)
       | none => pure ()
-      if c.recv.any (·.1 == addr) then last := some c.now
+      if heardFrom cx c addr then last := some c.now
       else if last.isNone then last := some c.now
   return worst
 
@@ -191,7 +208,7 @@ def monitorC07 (cx : Ctx) : List Finding := Id.run do
             let st := (c.eps.find? fun e => e.addr == addr && !e.spectator).map (·.state)
             let t0 := lastRecv.getD (firstPoll.getD 0)
             -- the message filter updates last_recv_time before this poll's timers run
-            let t0 := if c.recv.any (·.1 == addr) then c.now else t0
+            let t0 := if heardFrom cx c addr then c.now else t0
             if st == some 3 || st == some 4 then
               if !(c.now > t0 + dt) then
                 out := mkF cx "C07" "too-early" s.sid c.lineNo
@@ -201,7 +218,7 @@ def monitorC07 (cx : Ctx) : List Finding := Id.run do
               out := mkF cx "C07" "too-late" s.sid c.lineNo
                 s!"address {addr} silent since {t0} µs, still connected at {c.now} µs (timeout {dt} µs)" :: out
               reported := true
-            if c.recv.any (·.1 == addr) then lastRecv := some c.now
+            if heardFrom cx c addr then lastRecv := some c.now
       -- the survivor's final timeline for the dropped player
       let lastAdv := cx.sc.calls.toList.reverse.find? fun c => c.sid == s.sid && c.isAdvOk
       match lastAdv with
@@ -272,8 +289,12 @@ def monitorC10 (cx : Ctx) : List Finding := Id.run do
 def monitorC08 (cx : Ctx) : List Finding :=
   monitorPanics cx "C08" ++
   (monitorC01 cx).map (fun f => { f with prop := "C08", clause := "inputs-changed" }) ++
-  (monitorC05 cx).filterMap fun f =>
-    if f.clause == "spurious-disconnect" then some { f with prop := "C08", clause := "connection-state" } else none
+  ((monitorC05 cx).filterMap fun f =>
+    if f.clause == "spurious-disconnect" then some { f with prop := "C08", clause := "connection-state" } else none) ++
+  -- a peer that has gone silent must time out even while foreign packets keep arriving from its
+  -- address (the silence is measured over packets carrying the peer's magic only)
+  (monitorC07 cx).filterMap fun f =>
+    if f.clause == "too-late" then some { f with prop := "C08", clause := "foreign-keeps-alive" } else none
 
 /-! ### C09 — desync detection -/
 
